@@ -22,6 +22,18 @@ import (
 )
 
 func run(in *input, em *lib.Emitter, id string) {
+	// An invariant of the driver itself that breaks (a genuine signature refused by the client's
+	// own check, supporters that disagree on the hash, an unexpected error of the real code) must
+	// not take the other cases down with it: it is emitted as a case the judge rejects (BadCase:
+	// a CEth whose message is not 32 bytes), with the input for --replay and the panic text.
+	defer func() {
+		if r := recover(); r != nil {
+			em.Tally("driver-invariant-broken")
+			em.Case(lib.Case{ID: id, Coq: "(CEth [] [] false)", Key: keyOf(in),
+				Sig: map[string]interface{}{"kind": in.Kind, "driver_panic": true},
+				In:  in, Out: map[string]interface{}{"driverPanic": fmt.Sprint(r)}})
+		}
+	}()
 	switch in.Kind {
 	case "dkg":
 		runDkg(in, em, id)
@@ -98,9 +110,11 @@ func runConsts(em *lib.Emitter, id string) {
 // ------------------------------------------------------------------ generators
 
 type gen struct {
-	r       *lib.Rng
-	real    constants
-	pubKeys [][2]string // on-curve public keys: ordinary, X with a leading zero byte, Y with one
+	r    *lib.Rng
+	real constants
+	pool *keyPool // keys with short coordinates (keys.go): corpus + this run's grind
+	// operator keys: opShortNum out of 4 operators get a short-coordinate key from the pool
+	opShortNum int
 }
 
 func (g *gen) privHex() string {
@@ -112,34 +126,32 @@ func (g *gen) privHex() string {
 	}
 }
 
-func (g *gen) initKeys() {
-	var ord, zx, zy [][2]string
-	for tries := 0; tries < 4000 && (len(ord) < 6 || len(zx) < 1 || len(zy) < 1); tries++ {
-		k, _ := ethcrypto.HexToECDSA(g.privHex())
-		x, y := k.PublicKey.X, k.PublicKey.Y
-		p := [2]string{x.Text(16), y.Text(16)}
-		switch {
-		case x.BitLen() <= 248:
-			zx = append(zx, p)
-		case y.BitLen() <= 248:
-			zy = append(zy, p)
-		case len(ord) < 6:
-			ord = append(ord, p)
-		}
+// groupKey is the group / wallet public key of a case: half of the time a key with short
+// coordinates (uniform over the shapes in the pool), otherwise a uniformly drawn key.
+func (g *gen) groupKey() curveKey {
+	if g.r.Chance(1, 2) {
+		return g.pool.pick(g.r)
 	}
-	g.pubKeys = append(append(ord, zx...), zy...)
-	// keys whose Y resp. X has two leading zero bytes (found once by enumeration): the public
-	// keys of the scalars 0xa0e8 and 0xae55
-	for _, d := range []int{0xa0e8, 0xae55} {
-		if k, err := ethcrypto.HexToECDSA(fmt.Sprintf("%064x", d)); err == nil {
-			g.pubKeys = append(g.pubKeys, [2]string{k.PublicKey.X.Text(16), k.PublicKey.Y.Text(16)})
-		}
-	}
+	return keyOfPriv(g.privHex())
 }
 
 func (g *gen) pubKey() (string, string) {
-	p := g.pubKeys[g.r.Intn(len(g.pubKeys))]
-	return p[0], p[1]
+	k := g.groupKey()
+	return k.X, k.Y
+}
+
+// opPriv is an operator's private key: a short-coordinate key of the pool (not yet used in
+// this case) opShortNum times out of 4, a uniformly drawn one otherwise.
+func (g *gen) opPriv(used map[string]bool) string {
+	if g.r.Chance(g.opShortNum, 4) {
+		if k, ok := g.pool.pickUnused(g.r, used); ok {
+			used[k.Priv] = true
+			return k.Priv
+		}
+	}
+	p := g.privHex()
+	used[p] = true
+	return p
 }
 
 func (g *gen) chainID() string {
@@ -158,6 +170,7 @@ func (g *gen) chainID() string {
 func (g *gen) seats(n, nOps int) ([]uint32, map[string]string) {
 	ids := make([]uint32, 0, nOps)
 	used := map[uint32]bool{}
+	usedPriv := map[string]bool{}
 	keys := map[string]string{}
 	for len(ids) < nOps {
 		id := uint32(g.r.U64())
@@ -173,7 +186,7 @@ func (g *gen) seats(n, nOps int) ([]uint32, map[string]string) {
 		}
 		used[id] = true
 		ids = append(ids, id)
-		keys[fmt.Sprint(id)] = g.privHex()
+		keys[fmt.Sprint(id)] = g.opPriv(usedPriv)
 	}
 	members := make([]uint32, n)
 	for i := range members {
@@ -500,10 +513,15 @@ func main() {
 	}
 	rng := lib.NewRng(o.Seed)
 	real := readConsts()
+	// --- keys with short coordinates: the committed corpus keys plus, once per run and from the
+	// run's PRNG, ground keys whose X has a leading zero byte, whose Y has one, where both have
+	// one, and where X resp. Y has two (when met within the budget).  Every stream that hashes or
+	// serialises a key draws its group / wallet key from this pool half of the time and a quarter
+	// of its operator keys (see gen.groupKey / gen.opPriv).
+	pool := corpusPool()
+	pool.grind(rng.Fork("short-coordinate-keys"), o.Count(1<<17, 1<<20))
 	mk := func(label string) *gen {
-		g := &gen{r: rng.Fork(label), real: real}
-		g.initKeys()
-		return g
+		return &gen{r: rng.Fork(label), real: real, pool: pool, opShortNum: 1}
 	}
 
 	// --- the constants of both sides
@@ -511,8 +529,7 @@ func main() {
 
 	// --- corpus: minimised regression cases (fixed seed)
 	{
-		g := &gen{r: lib.NewRng(40), real: real}
-		g.initKeys()
+		g := &gen{r: lib.NewRng(40), real: real, pool: corpusPool(), opShortNum: 1}
 		// one misbehaved member only (the contract's range check is skipped for a single index)
 		run(g.dkgCase(5, 3, 4, 4, []uint8{5}, []uint8{1, 2, 3, 4}, true), em, "corpus-single-misbehaved-last")
 		run(g.dkgCase(5, 3, 4, 4, []uint8{1}, []uint8{2, 3, 4, 5}, false), em, "corpus-single-misbehaved-first")
@@ -529,10 +546,24 @@ func main() {
 		run(in, em, "corpus-255-misbehaved")
 		in = g.dkgCase(255, 128, 230, 230, []uint8{7}, append(rangeU8(20, 254), 255), false)
 		run(in, em, "corpus-255-signer")
-		// a public key with leading zero bytes in X (keys[-1]) — chain format vs elliptic.Marshal
-		in = g.dkgCase(4, 3, 4, 4, nil, []uint8{1, 2, 3, 4}, true)
-		in.KeyX, in.KeyY = g.pubKeys[len(g.pubKeys)-1][0], g.pubKeys[len(g.pubKeys)-1][1]
-		run(in, em, "corpus-short-x")
+		// group / wallet public keys with short coordinates (keys.go corpusShortKeys: the smallest
+		// scalars whose X, Y, both have one leading zero byte, whose X, Y has two): the key is
+		// serialised by convertPubKeyToChainFormat for the result and the wallet id and by
+		// elliptic.Marshal for the two hashes; the contracts hash the left-padded 64 bytes.  The
+		// operators of these cases all have short-coordinate keys too (the other corpus keys).
+		g.opShortNum = 4
+		for _, k := range g.pool.all {
+			in = g.dkgCase(4, 3, 3, 3, []uint8{2}, []uint8{1, 3, 4}, true)
+			in.KeyX, in.KeyY = k.X, k.Y
+			run(in, em, "corpus-key-"+k.class()+"-dkg-submit")
+			in = g.dkgCase(4, 3, 4, 4, nil, []uint8{1, 2, 3, 4}, false)
+			in.KeyX, in.KeyY = k.X, k.Y
+			run(in, em, "corpus-key-"+k.class()+"-dkg-assemble")
+			c := g.claimCase(4, 3, 3)
+			c.KeyX, c.KeyY = k.X, k.Y
+			run(c, em, "corpus-key-"+k.class()+"-claim")
+		}
+		g.opShortNum = 1
 		c := g.claimCase(5, 3, 3)
 		c.RawInact, c.Heartbeat = []uint8{4, 2, 4, 1}, true
 		run(c, em, "corpus-claim-duplicates-heartbeat")
@@ -605,6 +636,28 @@ func main() {
 		}
 	}
 
+	// --- every short-coordinate key of the pool (corpus + this run's grind) as group key of a
+	// result through the submitter, of a directly assembled result, and as wallet key of a claim;
+	// half of the operators have short-coordinate keys as well
+	{
+		g := mk("short-keys")
+		g.opShortNum = 2
+		for k, key := range pool.all {
+			for _, via := range []bool{true, false} {
+				in := g.randomValidDkg(g.r.Range(2, 9), false)
+				for in.ViaSubmit != via {
+					in = g.randomValidDkg(g.r.Range(2, 9), false)
+				}
+				in.KeyX, in.KeyY = key.X, key.Y
+				run(in, em, fmt.Sprintf("shortkey-%d-%s-dkg-%v", k, key.class(), via))
+			}
+			sz := g.r.Range(2, 9)
+			c := g.claimCase(sz, sz/2+1, sz/2+1)
+			c.KeyX, c.KeyY = key.X, key.Y
+			run(c, em, fmt.Sprintf("shortkey-%d-%s-claim", k, key.class()))
+		}
+	}
+
 	// --- malformed stream
 	{
 		g := mk("malformed")
@@ -654,6 +707,11 @@ func main() {
 			run(&input{Kind: "eth", ChainID: "1", OpKeys: keys, Msg: hex.EncodeToString(g.r.Bytes(32))}, em,
 				fmt.Sprintf("eth-%d", k))
 		}
+		// the operator signer with every short-coordinate key of the pool
+		for k, key := range pool.all {
+			run(&input{Kind: "eth", ChainID: "1", OpKeys: map[string]string{fmt.Sprint(k + 1): key.Priv},
+				Msg: hex.EncodeToString(g.r.Bytes(32))}, em, fmt.Sprintf("eth-shortkey-%d-%s", k, key.class()))
+		}
 	}
 
 	em.Close("a case is one assembled key-generation result (directly or through the submitter) with the "+
@@ -661,5 +719,6 @@ func main() {
 		"packed by go-ethereum, one message signed by the operator signer, or the constants of both sides; "+
 		"distinct by the complete input; a result case is non-trivial when at least one member misbehaved and "+
 		"at least two members support the result, a claim when it accuses and is supported by at least two members",
-		map[string]interface{}{"constants": real})
+		map[string]interface{}{"constants": real, "shortCoordinateKeys": map[string]interface{}{
+			"corpus": len(corpusShortKeys), "grindTries": pool.Tries, "grindFound": pool.Found}})
 }
